@@ -2,6 +2,7 @@
 //! ohmon: runtime monitors for open-hypergraphs. One process = one shard of one monitor in one
 //! build profile. See /verif/DESIGN.md.
 
+mod adv;
 mod arrcheck;
 mod conv;
 mod ctx;
